@@ -779,10 +779,10 @@ Example C04_real_line_bound_computed :
   read_ssa_lim max_scan_token (ssa_bytes (a_adoc 65484)) [max_scan_token; 0%nat] = Err EIO.
 Proof. exact ssa_real_line_bound_computed. Qed.
 (* ---- the model's literals are the constants of the Go source (Proofs/ConstTie.v, Gen/Consts.v regenerated from the
-   repository on every run by tools/genconsts): every SSA/ASS keyword, separator, tag and name the model spells out equals the
-   package-level constant, struct tag or bidirectional-map entry of the source, or occurs among the string literals of
-   the function the model transcribes.  A closed boolean computed by the kernel. ---- *)
-From Astisub Require Proofs.ConstTie.
-Theorem C04_constants_from_source : ConstTie.all ConstTie.SsaTie.ties = true.
-Proof. exact ConstTie.SsaTie.consts_from_source. Qed.
+   repository on every run by tools/genconsts): the SSA/ASS separators, keywords and names the model spells out equal the
+   NAMED package-level constants, struct tags and bidirectional-map entries of the source (literals inside function bodies and
+   regexp patterns are deliberately not tied: see Proofs/ConstTie.v).  A closed boolean computed by the kernel. ---- *)
+From Astisub Require Proofs.ConstTie Proofs.ConstTieSsa.
+Theorem C04_constants_from_source : ConstTie.all ConstTieSsa.SsaTie.ties = true.
+Proof. exact ConstTieSsa.SsaTie.consts_from_source. Qed.
 Print Assumptions C04_constants_from_source.
